@@ -24,9 +24,9 @@ def laddQ : List ℚ → List ℚ → List ℚ
   | a :: p, b :: q => (a + b) :: laddQ p q
 
 /-- polynomial product of two coefficient lists (`[]` is the zero polynomial): `(a₀ + z·as)·b = a₀·b + z·(as·b)` -/
-def lconv : List ℚ → List ℚ → List ℚ
+def hbfSpecLconv : List ℚ → List ℚ → List ℚ
   | [], _ => []
-  | a :: as, b => laddQ (b.map (a * ·)) (0 :: lconv as b)
+  | a :: as, b => laddQ (b.map (a * ·)) (0 :: hbfSpecLconv as b)
 
 /-- insert `k-1` zeros after every item except the last (`p(z) ↦ p(z^k)`) -/
 def lupsample (k : ℕ) : List ℚ → List ℚ
@@ -36,7 +36,7 @@ def lupsample (k : ℕ) : List ℚ → List ℚ
 
 /-- overall impulse response (at the high rate) of the depth-`d` interpolating cascade built from `HBF_TAPS` -/
 def hbfCascadeFir (d : ℕ) : List ℚ :=
-  (List.range d).foldl (fun acc j => lconv acc (lupsample (2 ^ (d - 1 - j)) (hbfFir (hbfTapsQ j)))) [1]
+  (List.range d).foldl (fun acc j => hbfSpecLconv acc (lupsample (2 ^ (d - 1 - j)) (hbfFir (hbfTapsQ j)))) [1]
 
 /-- zero-phase amplitude response of the half-band FIR `hbfFir taps` at angular frequency `θ` -/
 noncomputable def hbfAmp (taps : List ℚ) (θ : ℝ) : ℝ :=
